@@ -293,6 +293,7 @@ class MemoryPersister : public Persister
 {
 	using Store = std::map<unsigned, const f8String>;
 	Store _store;
+	mutable f8_mutex _mutex; // sending threads store while the receiving thread answers a resend request
 
 public:
 	/// Ctor.
@@ -397,6 +398,7 @@ class FilePersister : public Persister
 
 	using Index = std::map<uint32_t, Prec>;
 	Index _index;
+	mutable f8_mutex _mutex; // sending threads store while the receiving thread answers a resend request
 
 public:
 	/// Ctor.
